@@ -53,7 +53,8 @@ LEVEL_TEXT = ('Every emitted module within the bounds is executed and compared '
               'with its source configuration; nothing is sampled.')
 LEVEL_NOTE = ('Trusted: mc.canon, exec of emitted code with linecache-backed '
               'source (auto_config needs inspect.getsource). Bounds: N<=2 '
-              '(quick) / 3 (thorough) nodes plus a reduced N=3 family.')
+              'nodes plus reduced N=3 / N=4 families; the thorough tier adds a '
+              'second N=3 family and all complexity thresholds 0..3.')
 
 
 def mk(cls, fn):
@@ -127,7 +128,8 @@ def bounds(tier):
                           [['cfg', 'pa', 'list2'], 3, 1, 'notags'],
                           [['cfg', 'tuple1'], 4, 2, 'light']],
                 complexities=[None, 1], histories=[False, True])
-  return dict(families=[[FULL, 2, 2], [['cfg', 'list2', 'dict2'], 2, 6],
+  return dict(families=[[FULL, 2, 1], [['cfg', 'list2', 'dict2'], 2, 6, 'leaves'],
+                        [['cfg', 'pa', 'list2'], 3, 1, 'notags'],
                         [['cfg', 'tuple1'], 4, 2, 'light'],
                         [SMALL + ['parf', 'dict2'], 3, 1]],
               complexities=[None, 0, 1, 2, 3], histories=[False, True])
